@@ -97,6 +97,18 @@ func runC03(c *core.Case) {
 				ids = append(ids, genID(r, clampI(base.H-2, 0, 35), clampI(base.H+2, 0, 35), clampI(base.V-2, 0, 35), clampI(base.V+2, 0, 35)))
 			}
 		}
+		if r.P(0.05) { // a voxel with f = 0 next to a finer one just below ground on the same footprint (not nested)
+			P, ch := truncAliasPair(r)
+			if r.P(0.7) {
+				ids = append(ids, P, ch)
+			} else {
+				ids = append(ids, ch, P)
+			}
+			if r.P(0.5) {
+				ids = ids[len(ids)-2:]
+			}
+			c.Tag("f=0-then-finer-f<0-same-footprint")
+		}
 		// targets: at most 3 levels finer than the coarsest input on each axis (bounded blow-up), any amount coarser
 		minH, minV := int64(35), int64(35)
 		for _, a := range ids {
